@@ -289,6 +289,17 @@ Fixpoint do_moves (d : fsmap) (l : dict) : option fsmap :=
 Definition archive_dir (home : str) (pn : Z) : str := pjoin home (int_str pn).
 Definition accepted_dir (pdir : str) : str := pjoin pdir acc_dir.
 
+(* files directly inside a directory (os.listdir + isfile) *)
+Definition in_dir (dir k : str) : bool :=
+  let P := pjoin dir [] in
+  str_eqb (firstn (length P) k) P && negb (is_nil (skipn (length P) k)) && negb (has_slash (skipn (length P) k)).
+
+(* output(): files found in the target directory are removed before the path is stored (fix
+   5456497).  [ko = false]: all of them -- also a file the path itself refers to; [ko = true]
+   (proposed repair): files the path refers to are spared. *)
+Definition clean_dir (ko : bool) (tdir : str) (p : list frame) (d : fsmap) : fsmap :=
+  filter (fun kv => negb (in_dir tdir (fst kv) && negb (ko && mem_str (fst kv) (map f_file p)))) d.
+
 Definition write_txt (d : fsmap) (arch : str) (step : Z) (move : str) (p : list frame) : fsmap :=
   let d1 := fs_set d (pjoin arch order_txt) (render (order_file step move p)) in
   let d2 := fs_set d1 (pjoin arch energy_txt) (render (energy_file step move p)) in
@@ -296,15 +307,17 @@ Definition write_txt (d : fsmap) (arch : str) (step : Z) (move : str) (p : list 
 
 (* PathStorage.output(step, {"path": p, "dir": home}) with p.path_number = pn, str(p.generated)
    = move.  Result: the disk afterwards and the configs of the returned path copy. *)
-Definition store (d : fsmap) (step : Z) (move home : str) (pn : Z) (keep : list str) (p : list frame)
+Definition store_gen (ko : bool) (d : fsmap) (step : Z) (move home : str) (pn : Z) (keep : list str) (p : list frame)
   : option (fsmap * list (str * option Z)) :=
   let arch := archive_dir home pn in
   let tdir := accepted_dir arch in
-  let d3 := write_txt d arch step move p in
+  let d3 := write_txt (clean_dir ko tdir p d) arch step move p in
   match do_moves d3 (move_list d3 tdir keep p) with
   | Some d4 => Some (d4, map (fun fr => (dst tdir (f_file fr), f_idx fr)) p)
   | None => None
   end.
+(* the code as it is in /repo *)
+Definition store := store_gen store_keeps_own.
 
 (* ------------------------------------------------------------------ load_path *)
 
